@@ -9,6 +9,7 @@ import (
 	"errors"
 	"fmt"
 	"net/http"
+	"net/url"
 	"net/http/httptest"
 	"os"
 	"path/filepath"
@@ -1210,7 +1211,7 @@ func cloneVars(v map[string]interface{}) map[string]interface{} {
 
 func (run *Run) execOp(w *World, c int, op Op) OpResult {
 	res := OpResult{Client: c, Op: op, World: w.id}
-	if op.HTTP && w.srv != nil {
+	if (op.HTTP || op.Kind == "logs") && w.srv != nil {
 		return run.execHTTP(w, res)
 	}
 	switch op.Kind {
@@ -1288,6 +1289,22 @@ func (run *Run) execHTTP(w *World, res OpResult) OpResult {
 		res.Job = fmt.Sprintf("j%d", op.Job)
 	case "list":
 		req = httptest.NewRequest("GET", "/pipelines/jobs", nil)
+	case "logs":
+		// the log API for one task of a job, at whatever moment of the job's life the schedule puts it (workload: the
+		// answers are judged at the end of the run, when everything has been written)
+		var names []string
+		for _, p := range w.defs.Pipelines {
+			for _, t := range p.Tasks {
+				names = append(names, t.Name)
+			}
+		}
+		sort.Strings(names)
+		task := "a"
+		if len(names) > 0 {
+			task = names[op.Route%len(names)]
+		}
+		req = httptest.NewRequest("GET", "/job/logs?id="+mkID(uint64(op.Job)).String()+"&task="+url.QueryEscape(task), nil)
+		res.Job = fmt.Sprintf("j%d", op.Job)
 	default:
 		return res
 	}
